@@ -80,6 +80,7 @@ def handle (line : String) : String :=
       | none => "ext"
     | none => "error:parse"
   | ["SPECCHK", block, src, tgt, instrs, deps, scheds] => Spec.handleSpecChk norm3 block src tgt instrs deps scheds
+  | ["SPECRUN", seed, stack, block, src, tgt, instrs, deps, sched] => Spec.handleSpecRun seed stack block src tgt instrs deps sched
   | ["REALIZES", src, tgt, instrs, deps, ids] => Spec.handleRealizes src tgt instrs deps ids
   | ["PLAINPARSE", text] => Plain.handlePlainParse text
   | ["PLAINPRINT", p0, items] => Plain.handlePlainPrint p0 items
